@@ -292,7 +292,8 @@ pub fn specs(n: usize) -> Vec<Spec> {
             v.push(Spec::with_ma(Pfe, n, e(), ma));
         }
     }
-    for ma in [Spec::un(Ema, 2, e()), Spec::un(Sma, 3, e()), Spec::un(Ema, 1, e())] {
+    // the bound is stated for any smoothing view: include averages that overshoot their input
+    for ma in [Spec::un(Ema, 2, e()), Spec::un(Sma, 3, e()), Spec::un(Ema, 1, e()), Spec::un(SuperSmoother, 2, e()), Spec::un(SuperSmoother, 5, e()), Spec::unp(LaguerreFilter, 0, vec![0.5], e()), e()] {
         v.push(Spec::with_ma(Eft, n, e(), ma));
     }
     v
